@@ -362,6 +362,22 @@ func registryAddAtomic(fd *ast.FuncDecl) bool {
 	return check > 0 && insert > check && firstUnlock > insert && start > firstUnlock
 }
 
+// number of atomic.AddInt64(&<recv>.len, …) calls in a method body
+func lenAdds(fd *ast.FuncDecl) int {
+	if fd == nil {
+		return -1
+	}
+	n := 0
+	ast.Inspect(fd.Body, func(x ast.Node) bool {
+		if c, ok := x.(*ast.CallExpr); ok && exprString(c.Fun) == "atomic.AddInt64" && len(c.Args) == 2 &&
+			exprString(c.Args[0]) == "&"+recvName(fd)+".len" {
+			n++
+		}
+		return true
+	})
+	return n
+}
+
 func leanStr(s string) string { return strconv.Quote(s) }
 
 func leanBool(b bool) string {
@@ -428,6 +444,8 @@ func main() {
 	fmt.Fprintf(&b, "/-- every RingBuffer method named here is one critical section of rb.mu -/\n")
 	fmt.Fprintf(&b, "def ringLockShape : List (String × Bool) := %s\n", shapeList(rm, []string{"Push", "Pop", "PopN"}))
 	fmt.Fprintf(&b, "def ringLenIsAtomicLoad : Bool := %s\n", leanBool(lenIsAtomicLoad(rm["Len"])))
+	fmt.Fprintf(&b, "/-- how many times each method updates the length counter (its linearization point) -/\n")
+	fmt.Fprintf(&b, "def ringLenAdds : List (String × Nat) := [(\"Push\", %d), (\"Pop\", %d), (\"PopN\", %d)]\n", lenAdds(rm["Push"]), lenAdds(rm["Pop"]), lenAdds(rm["PopN"]))
 	fmt.Fprintf(&b, "def ringLenOnlyAtomicWrites : Bool := %s\n", leanBool(lenOnlyAtomicWrites(ring)))
 	fmt.Fprintf(&b, "def registryLockShape : List (String × Bool) := %s\n", shapeList(gm, []string{"Remove", "get", "getByID"}))
 	fmt.Fprintf(&b, "/-- Registry.add tests and inserts under one critical section and starts the process after it -/\n")
